@@ -1,4 +1,8 @@
 // ---- appended by /verif (engine K): DDDMP header loader `DumpHeader::load` on TEMPLATE inputs (property C15) ----
+// Harnesses in this file that are NOT listed in suite.json (never completed under the 12 GB / 1200 s budget; kept
+// for machines with more memory): nvars_digit (discharged in 822 s under a 24 GB cap), nsuppvars_digit, nroots_digit
+// (the loader allocates by the symbolic count: solver out of memory at 12 GB), orderedvarnames_permid_digit (1200 s
+// timeout: lines of 16 bytes or more take the memchr crate's SSE2 path, which Kani's SIMD model does not get through).
 #[cfg(kani)]
 mod verif_header {
     use super::*;
@@ -67,8 +71,9 @@ mod verif_header {
         e
     }
 
-    /// `template!(name, b"text with # holes")` defines module `name` with the text `T`, its line
-    /// end offsets `E` and the hole positions `H0..H2` as compile-time constants
+    /// `template!(name, number_of_holes, b"text with # holes")` defines module `name` with the
+    /// text `T`, its number of lines `N`, line end offsets `E` and the hole positions `H0..H2` as
+    /// compile-time constants
     macro_rules! template {
         ($m:ident, $holes:expr, $s:expr) => {
             mod $m {
@@ -86,8 +91,9 @@ mod verif_header {
     /// lines (line boundaries are compile-time constants; every harness keeps `\n` out of the
     /// holes, so these ARE the lines of the input).  Everything else behaves like `&[u8]`.
     /// Why not std's `impl BufRead for &[u8]`: its `read_until` uses `core::slice::memchr`
-    /// (word-at-a-time after `align_offset`, symbolic under CBMC): a fully concrete 119-byte
-    /// header took 365 s of symbolic execution and then exhausted 12 GB.
+    /// (word-at-a-time after `align_offset`, which is symbolic under CBMC): one symbolic digit
+    /// in the 119-byte template: out of memory at 12 GB after 507 s; even the fully concrete
+    /// template: 365 s of symbolic execution, then the solver ran out of memory.
     struct LineRd<'a> {
         buf: &'a [u8],
         ends: &'a [usize],
@@ -289,142 +295,196 @@ mod verif_header {
         core::mem::forget(r);
     }
 
-    template!(t_root2, 2, b".ver DDDMP-2.0\n.mode A\n.varinfo 4\n.nnodes 3\n.nvars 3\n.nsuppvars 2\n.ids 0 2\n.permids 1 0\n.nroots 2\n.rootids 2 ##\n.nodes\n");
+    template!(t_root2, 1, b".ver DDDMP-2.0\n.mode A\n.varinfo 4\n.nnodes 3\n.nvars 3\n.nsuppvars 2\n.ids 0 2\n.permids 1 0\n.nroots 2\n.rootids 2 #3\n.nodes\n");
 
-    /// `.rootids 2 SD`: S in {'-', ' ', digit}, D digit (sign + digit, one digit, or two digits)
-    /// at the END of the line.  valid iff the denoted integer v satisfies v != 0 and |v| <= 3.
+    /// `.rootids 2 S3`, S any byte but `\n` (sign, blank, or a leading digit).  The second entry
+    /// denotes -3 (S = '-'), 3 (S blank or '0'), or 13..93; valid iff S in {'-', ' ', TAB, '0'}.
     #[kani::proof]
     #[kani::unwind(17)]
     #[kani::stub(alloc::fmt::format, stub_format)]
     #[kani::stub(core::arch::x86_64::__cpuid_count, stub_cpuid)]
     #[kani::stub(alloc::string::String::from_utf8_lossy, stub_lossy)]
-    fn rootids_sign_and_digit() {
+    fn rootids_sign_byte() {
         use t_root2::*;
         let mut buf = T;
-        let (s, d): (u8, u8) = (kani::any(), kani::any());
-        kani::assume(s == b'-' || s == b' ' || digit(s));
-        kani::assume(digit(d));
+        let s: u8 = kani::any();
+        kani::assume(s != b'\n');
         buf[H0] = s;
-        buf[H1] = d;
         let (r, done) = load_from(&buf, &E);
-        let dv = (d - b'0') as isize;
-        let v: isize = if s == b'-' {
-            -dv
-        } else if s == b' ' {
-            dv
-        } else {
-            10 * (s - b'0') as isize + dv
-        };
-        let valid = v != 0 && v >= -3 && v <= 3;
+        let valid = s == b'-' || blank(s) || s == b'0';
         match &r {
             Ok(h) => {
-                assert!(valid, "(R) root id 0 or |id| > nnodes must be rejected");
+                assert!(valid, "(R) root id > nnodes or malformed must be rejected");
                 check_invariant::<2, 2>(h);
                 check_t1_mode(h);
                 check_t1_support(h);
                 assert!(h.nnodes == 3 && h.nvars == 3);
-                assert!(h.rootids.len() == 2 && h.rootids[0] == 2 && h.rootids[1] == v, "metadata: .rootids");
+                let v: isize = if s == b'-' { -3 } else { 3 };
+                assert!(h.rootids.len() == 2 && h.rootids[0] == 2 && h.rootids[1] == v, "metadata: .rootids (sign = complement)");
                 assert!(done);
             }
             Err(_) => assert!(!valid, "a header satisfying all documented requirements is accepted"),
         }
-        kani::cover!(r.is_ok() && v == -3, "negative, in range");
-        kani::cover!(r.is_ok() && v == 3 && s == b'0', "leading zero");
-        kani::cover!(r.is_err() && v == 0 && s == b'-', "minus zero");
-        kani::cover!(r.is_err() && v == -4, "negative, out of range");
-        kani::cover!(r.is_err() && v == 13, "two digits, out of range");
-        kani::cover!(v == 99, "assumed region");
+        kani::cover!(r.is_ok() && s == b'-', "complemented root");
+        kani::cover!(r.is_ok() && s == b'0', "leading zero");
+        kani::cover!(r.is_ok() && s == b'\t', "tab separated");
+        kani::cover!(r.is_err() && s == b'1', "two digits, out of range");
+        kani::cover!(r.is_err() && s == b'+', "plus sign is not allowed");
+        kani::cover!(r.is_err() && s == b'\r', "carriage return inside the line");
         core::mem::forget(r);
     }
 
-    // ---------------- .ids
-    template!(t_ids, 2, b".ver DDDMP-2.0\n.mode A\n.varinfo 4\n.nnodes 3\n.nvars 3\n.nsuppvars 2\n.ids # #\n.permids 1 0\n.nroots 2\n.rootids 2 -3\n.nodes\n");
+    // ---------------- .ids / .permids
+    // ------------------------------------------------------------------ template T3
+    // 4 variables, support {0, x, 3} on levels {2, 1, 0}, 3 nodes, 2 roots (three list entries, so
+    // that a hole can sit in the MIDDLE of a list: a hole in the first byte of a value makes the
+    // start of the trimmed slice symbolic, which alone exceeds 12 GB)
 
-    /// `.ids A B`, A and B any bytes but `\n`.  Documented (support_vars()): num_support_vars()
-    /// (=2) integers in strictly ascending order, indices of the original numbering (< nvars = 3).
-    /// valid iff both are digits and A < B < 3.
+    template!(t3_ids, 1, b".ver DDDMP-2.0\n.mode A\n.varinfo 4\n.nnodes 3\n.nvars 4\n.nsuppvars 3\n.ids 0 # 3\n.permids 2 1 0\n.nroots 2\n.rootids 2 -3\n.nodes\n");
+
+    /// `.ids 0 A 3`, A any byte but `\n`.  Documented (support_vars()): num_support_vars() (=3)
+    /// integers in strictly ascending order (< nvars = 4).  valid iff A is the digit 1 or 2.
     #[kani::proof]
     #[kani::unwind(17)]
     #[kani::stub(alloc::fmt::format, stub_format)]
     #[kani::stub(core::arch::x86_64::__cpuid_count, stub_cpuid)]
     #[kani::stub(alloc::string::String::from_utf8_lossy, stub_lossy)]
-    fn ids_two_bytes() {
-        use t_ids::*;
+    fn ids_middle_byte() {
+        use t3_ids::*;
         let mut buf = T;
-        let (a, b): (u8, u8) = (kani::any(), kani::any());
-        kani::assume(a != b'\n' && b != b'\n');
+        let a: u8 = kani::any();
+        kani::assume(a != b'\n');
         buf[H0] = a;
-        buf[H1] = b;
         let (r, done) = load_from(&buf, &E);
-        let valid = digit(a) && digit(b) && a < b && b < b'3';
+        let valid = a == b'1' || a == b'2';
         match &r {
             Ok(h) => {
-                assert!(valid, "(R) .ids not ascending / >= nvars / wrong count / malformed must be rejected");
-                check_invariant::<2, 2>(h);
+                assert!(valid, "(R) .ids not strictly ascending / wrong count / malformed must be rejected");
+                check_invariant::<3, 2>(h);
                 check_t1_mode(h);
-                assert!(h.nnodes == 3 && h.nvars == 3);
-                assert!(h.ids.len() == 2 && h.ids[0] == (a - b'0') as u32 && h.ids[1] == (b - b'0') as u32, "metadata: .ids");
-                assert!(h.permids[0] == 1 && h.permids[1] == 0, "metadata: .permids");
-                assert!(h.support_var_order[0] == h.ids[1] && h.support_var_order[1] == h.ids[0], "second support variable is on level 0");
-                assert!(h.rootids.len() == 2 && h.rootids[0] == 2 && h.rootids[1] == -3);
+                assert!(h.nnodes == 3 && h.nvars == 4);
+                let d = (a - b'0') as u32;
+                assert!(h.ids[0] == 0 && h.ids[1] == d && h.ids[2] == 3, "metadata: .ids");
+                assert!(h.permids[0] == 2 && h.permids[1] == 1 && h.permids[2] == 0, "metadata: .permids");
+                assert!(h.support_var_order[0] == 3 && h.support_var_order[1] == d && h.support_var_order[2] == 0, "support variables by level");
+                assert!(h.rootids[0] == 2 && h.rootids[1] == -3);
                 assert!(done);
             }
             Err(_) => assert!(!valid, "a header satisfying all documented requirements is accepted"),
         }
-        kani::cover!(r.is_ok() && a == b'1' && b == b'2', "in range");
-        kani::cover!(r.is_err() && a == b'2' && b == b'2', "duplicate");
-        kani::cover!(r.is_err() && a == b'2' && b == b'1', "descending");
-        kani::cover!(r.is_err() && a == b'0' && b == b'3', "out of range (== nvars)");
-        kani::cover!(r.is_err() && a == b' ' && b == b'1', "too few entries");
+        kani::cover!(r.is_ok() && a == b'1', "in range");
+        kani::cover!(r.is_ok() && a == b'2', "in range, upper end");
+        kani::cover!(r.is_err() && a == b'0', "duplicate of the predecessor");
+        kani::cover!(r.is_err() && a == b'3', "duplicate of the successor");
+        kani::cover!(r.is_err() && a == b'4', "descending and == nvars");
+        kani::cover!(r.is_err() && a == b' ', "too few entries");
         kani::cover!(r.is_err() && a == b'-', "sign not allowed");
-        kani::cover!(r.is_err() && b == b'\r', "carriage return");
         core::mem::forget(r);
     }
 
-    // ---------------- .permids
-    template!(t_perm, 2, b".ver DDDMP-2.0\n.mode A\n.varinfo 4\n.nnodes 3\n.nvars 3\n.nsuppvars 2\n.ids 0 2\n.permids # #\n.nroots 2\n.rootids 2 -3\n.nodes\n");
+    template!(t3_ids_last, 1, b".ver DDDMP-2.0\n.mode A\n.varinfo 4\n.nnodes 3\n.nvars 4\n.nsuppvars 3\n.ids 0 1 #3\n.permids 2 1 0\n.nroots 2\n.rootids 2 -3\n.nodes\n");
 
-    /// `.permids P Q`, any bytes but `\n`.  Documented (support_var_to_level()): one level per
-    /// support variable; levels are positions in the variable order (< nvars = 3), so distinct.
-    /// valid iff both digits, P != Q, P < 3, Q < 3.  Ok => support_var_order sorted by level.
+    /// `.ids 0 1 S3`, S any byte but `\n`: the last entry is 3 (S blank or '0') or 13..93, i.e.
+    /// ascending but >= nvars (= 4).  valid iff S in {' ', TAB, '0'}.
     #[kani::proof]
     #[kani::unwind(17)]
     #[kani::stub(alloc::fmt::format, stub_format)]
     #[kani::stub(core::arch::x86_64::__cpuid_count, stub_cpuid)]
     #[kani::stub(alloc::string::String::from_utf8_lossy, stub_lossy)]
-    fn permids_two_bytes() {
-        use t_perm::*;
+    fn ids_last_entry_tens_byte() {
+        use t3_ids_last::*;
         let mut buf = T;
-        let (p, q): (u8, u8) = (kani::any(), kani::any());
-        kani::assume(p != b'\n' && q != b'\n');
-        buf[H0] = p;
-        buf[H1] = q;
+        let c: u8 = kani::any();
+        kani::assume(c != b'\n');
+        buf[H0] = c;
         let (r, done) = load_from(&buf, &E);
-        let valid = digit(p) && digit(q) && p != q && p < b'3' && q < b'3';
+        let valid = blank(c) || c == b'0';
+        match &r {
+            Ok(h) => {
+                assert!(valid, "(R) .ids entry >= .nvars / malformed must be rejected");
+                check_invariant::<3, 2>(h);
+                check_t1_mode(h);
+                assert!(h.nnodes == 3 && h.nvars == 4);
+                assert!(h.ids[0] == 0 && h.ids[1] == 1 && h.ids[2] == 3, "metadata: .ids");
+                assert!(h.support_var_order[0] == 3 && h.support_var_order[1] == 1 && h.support_var_order[2] == 0, "support variables by level");
+                assert!(done);
+            }
+            Err(_) => assert!(!valid, "a header satisfying all documented requirements is accepted"),
+        }
+        kani::cover!(r.is_ok() && c == b'0', "leading zero");
+        kani::cover!(r.is_ok() && c == b' ', "two blanks");
+        kani::cover!(r.is_err() && c == b'1', "13 >= nvars");
+        kani::cover!(r.is_err() && c == b'9', "93 >= nvars");
+        kani::cover!(r.is_err() && c == b'-', "sign not allowed");
+        core::mem::forget(r);
+    }
+
+    template!(t3_perm, 1, b".ver DDDMP-2.0\n.mode A\n.varinfo 4\n.nnodes 3\n.nvars 4\n.nsuppvars 3\n.ids 0 1 3\n.permids 2 # 0\n.nroots 2\n.rootids 2 -3\n.nodes\n");
+
+    /// `.permids 2 P 0`, P any byte but `\n`.  Documented (support_var_to_level()): one level per
+    /// support variable; levels are positions in the variable order (< nvars = 4), hence distinct.
+    /// valid iff P is the digit 1 or 3.  Ok => support_var_order is ids sorted by level.
+    #[kani::proof]
+    #[kani::unwind(17)]
+    #[kani::stub(alloc::fmt::format, stub_format)]
+    #[kani::stub(core::arch::x86_64::__cpuid_count, stub_cpuid)]
+    #[kani::stub(alloc::string::String::from_utf8_lossy, stub_lossy)]
+    fn permids_middle_byte() {
+        use t3_perm::*;
+        let mut buf = T;
+        let p: u8 = kani::any();
+        kani::assume(p != b'\n');
+        buf[H0] = p;
+        let (r, done) = load_from(&buf, &E);
+        let valid = p == b'1' || p == b'3';
         match &r {
             Ok(h) => {
                 assert!(valid, "(R) duplicate / out-of-range / malformed .permids must be rejected");
-                check_invariant::<2, 2>(h);
+                check_invariant::<3, 2>(h);
                 check_t1_mode(h);
-                assert!(h.nnodes == 3 && h.nvars == 3);
-                assert!(h.ids.len() == 2 && h.ids[0] == 0 && h.ids[1] == 2, "metadata: .ids");
-                assert!(h.permids.len() == 2 && h.permids[0] == (p - b'0') as u32 && h.permids[1] == (q - b'0') as u32, "metadata: .permids");
-                if p < q {
-                    assert!(h.support_var_order[0] == 0 && h.support_var_order[1] == 2, "order by level");
+                assert!(h.nnodes == 3 && h.nvars == 4);
+                assert!(h.ids[0] == 0 && h.ids[1] == 1 && h.ids[2] == 3, "metadata: .ids");
+                assert!(h.permids[0] == 2 && h.permids[1] == (p - b'0') as u32 && h.permids[2] == 0, "metadata: .permids");
+                if p == b'1' {
+                    // levels: var 3 -> 0, var 1 -> 1, var 0 -> 2
+                    assert!(h.support_var_order[0] == 3 && h.support_var_order[1] == 1 && h.support_var_order[2] == 0, "order by level");
                 } else {
-                    assert!(h.support_var_order[0] == 2 && h.support_var_order[1] == 0, "order by level");
+                    // levels: var 3 -> 0, var 0 -> 2, var 1 -> 3
+                    assert!(h.support_var_order[0] == 3 && h.support_var_order[1] == 0 && h.support_var_order[2] == 1, "order by level");
                 }
-                assert!(h.rootids.len() == 2 && h.rootids[0] == 2 && h.rootids[1] == -3);
+                assert!(h.rootids[0] == 2 && h.rootids[1] == -3);
                 assert!(done);
             }
             Err(_) => assert!(!valid, "a header satisfying all documented requirements is accepted"),
         }
-        kani::cover!(r.is_ok() && p == b'0' && q == b'2', "in range, ascending");
-        kani::cover!(r.is_ok() && p == b'2' && q == b'1', "in range, descending");
-        kani::cover!(r.is_err() && p == b'1' && q == b'1', "duplicate");
-        kani::cover!(r.is_err() && p == b'0' && q == b'3', "out of range (== nvars)");
-        kani::cover!(r.is_err() && p == b'9', "out of range");
-        kani::cover!(r.is_err() && p == b' ' && q == b'1', "too few entries");
+        kani::cover!(r.is_ok() && p == b'1', "in range, dense levels");
+        kani::cover!(r.is_ok() && p == b'3', "in range, gap in the levels");
+        kani::cover!(r.is_err() && p == b'0', "duplicate level");
+        kani::cover!(r.is_err() && p == b'2', "duplicate level (first entry)");
+        kani::cover!(r.is_err() && p == b'4', "out of range (== nvars)");
+        kani::cover!(r.is_err() && p == b' ', "too few entries");
+        core::mem::forget(r);
+    }
+
+    template!(t3_nsupp2, 1, b".ver DDDMP-2.0\n.mode A\n.varinfo 4\n.nnodes 3\n.nvars 4\n.nsuppvars 2\n.ids 0 # 3\n.permids 2 1 0\n.nroots 2\n.rootids 2 -3\n.nodes\n");
+
+    /// `.nsuppvars 2` but three entries in .permids and `.ids 0 A 3` (A any byte but `\n`; two
+    /// entries if A is blank): (R) Err for EVERY A.
+    #[kani::proof]
+    #[kani::unwind(17)]
+    #[kani::stub(alloc::fmt::format, stub_format)]
+    #[kani::stub(core::arch::x86_64::__cpuid_count, stub_cpuid)]
+    #[kani::stub(alloc::string::String::from_utf8_lossy, stub_lossy)]
+    fn nsuppvars_fewer_than_listed() {
+        use t3_nsupp2::*;
+        let mut buf = T;
+        let a: u8 = kani::any();
+        kani::assume(a != b'\n');
+        kani::cover!(a == b'1', "ids themselves valid");
+        kani::cover!(a == b' ', "two ids, three levels");
+        buf[H0] = a;
+        let (r, _) = load_from(&buf, &E);
+        assert!(r.is_err(), "(R) .nsuppvars does not match the number of .ids / .permids entries");
         core::mem::forget(r);
     }
 
@@ -640,6 +700,31 @@ mod verif_header {
         }
     }
 
+    // ---------------- count mismatches with CONCRETE counts (the loader allocates by the counts;
+    // symbolic counts exceed 12 GB, see nvars_digit / nsuppvars_digit / nroots_digit above)
+
+    template!(t_nroots3, 1, b".ver DDDMP-2.0\n.mode A\n.varinfo 4\n.nnodes 3\n.nvars 3\n.nsuppvars 2\n.ids 0 2\n.permids 1 0\n.nroots 3\n.rootids -# 2\n.nodes\n");
+
+    /// `.nroots 3` but two entries `-D 2` (D digit) in .rootids: (R) Err for every D
+    /// ("import() returns this number of roots").
+    #[kani::proof]
+    #[kani::unwind(17)]
+    #[kani::stub(alloc::fmt::format, stub_format)]
+    #[kani::stub(core::arch::x86_64::__cpuid_count, stub_cpuid)]
+    #[kani::stub(alloc::string::String::from_utf8_lossy, stub_lossy)]
+    fn nroots_more_than_listed() {
+        use t_nroots3::*;
+        let mut buf = T;
+        let d: u8 = kani::any();
+        kani::assume(digit(d));
+        kani::cover!(d == b'3', "root ids themselves valid");
+        kani::cover!(d == b'9', "assumed region");
+        buf[H0] = d;
+        let (r, _) = load_from(&buf, &E);
+        assert!(r.is_err(), "(R) .nroots does not match the number of .rootids entries");
+        core::mem::forget(r);
+    }
+
     // `.nroots` = usize::MAX (concrete: the loader reserves memory by this number), one open root digit
     template!(t_nroots_huge, 1, b".ver DDDMP-2.0\n.mode A\n.varinfo 4\n.nnodes 3\n.nvars 3\n.nsuppvars 2\n.ids 0 2\n.permids 1 0\n.nroots 18446744073709551615\n.rootids -# 2\n.nodes\n");
 
@@ -699,111 +784,122 @@ mod verif_header {
         core::mem::forget(r);
     }
 
-    // isize::MIN = -9223372036854775808
-    template!(t_root_min, 1, b".ver DDDMP-2.0\n.mode A\n.varinfo 4\n.nnodes 3\n.nvars 3\n.nsuppvars 2\n.ids 0 2\n.permids 1 0\n.nroots 2\n.rootids -922337203685477580# 2\n.nodes\n");
+    // ---------------- truncated files (fully concrete inputs, one per harness)
+    template!(t_full, 0, b".ver DDDMP-2.0\n.mode A\n.varinfo 4\n.nnodes 3\n.nvars 3\n.nsuppvars 2\n.ids 0 2\n.permids 1 0\n.nroots 2\n.rootids 2 -3\n.nodes\n");
 
-    /// `.rootids -922337203685477580D 2` around isize::MIN: (P) no overflow panic in the sign
-    /// handling / `unsigned_abs`; (R) always Err (|id| > nnodes = 3, or not representable).
-    #[kani::proof]
-    #[kani::unwind(36)]
-    #[kani::stub(alloc::fmt::format, stub_format)]
-    #[kani::stub(core::arch::x86_64::__cpuid_count, stub_cpuid)]
-    #[kani::stub(alloc::string::String::from_utf8_lossy, stub_lossy)]
-    fn rootids_isize_boundary() {
-        use t_root_min::*;
+    /// The template cut off after `K` complete lines (K < 11): a header that ends before its
+    /// `.nodes` line is rejected ("unexpected end of file"), not accepted, no panic.
+    fn truncated<const K: usize>() {
+        use t_full::*;
         let mut buf = T;
-        let d: u8 = kani::any();
-        kani::assume(digit(d));
-        buf[H0] = d;
-        let (r, _) = load_from(&buf, &E);
-        assert!(r.is_err(), "(R) root id far beyond .nnodes must be rejected");
-        kani::cover!(d == b'7', "-isize::MAX");
-        kani::cover!(d == b'8', "isize::MIN");
-        kani::cover!(d == b'9', "below isize::MIN");
+        buf[0] = b'.'; // (a store makes CBMC keep the array as individual constants)
+        let mut inp = LineRd::new(&buf, &E);
+        inp.limit = K;
+        let r = DumpHeader::load(&mut inp);
+        assert!(r.is_err(), "(R) a header that ends before .nodes must be rejected");
         core::mem::forget(r);
     }
 
-    // ---------------- truncated files
-    template!(t_full, 0, b".ver DDDMP-2.0\n.mode A\n.varinfo 4\n.nnodes 3\n.nvars 3\n.nsuppvars 2\n.ids 0 2\n.permids 1 0\n.nroots 2\n.rootids 2 -3\n.nodes\n");
-
-    /// The (concrete) template cut off after K complete lines, K symbolic in 0..=11: a header
-    /// without its `.nodes` line is rejected ("unexpected end of file"); K = 11 is the full header.
+    /// only the `.nodes` line is missing
     #[kani::proof]
     #[kani::unwind(17)]
     #[kani::stub(alloc::fmt::format, stub_format)]
     #[kani::stub(core::arch::x86_64::__cpuid_count, stub_cpuid)]
     #[kani::stub(alloc::string::String::from_utf8_lossy, stub_lossy)]
-    fn truncated_after_k_lines() {
+    fn truncated_before_nodes() {
+        truncated::<{ t_full::N - 1 }>();
+    }
+
+    /// the file ends in the middle of the header (after `.nsuppvars`)
+    #[kani::proof]
+    #[kani::unwind(17)]
+    #[kani::stub(alloc::fmt::format, stub_format)]
+    #[kani::stub(core::arch::x86_64::__cpuid_count, stub_cpuid)]
+    #[kani::stub(alloc::string::String::from_utf8_lossy, stub_lossy)]
+    fn truncated_after_6_lines() {
+        truncated::<6>();
+    }
+
+    /// The complete concrete template T1 is accepted with exactly the announced metadata
+    /// ("header metadata survives"), including the number of header lines used by `import()`
+    /// for error messages.
+    #[kani::proof]
+    #[kani::unwind(17)]
+    #[kani::stub(alloc::fmt::format, stub_format)]
+    #[kani::stub(core::arch::x86_64::__cpuid_count, stub_cpuid)]
+    #[kani::stub(alloc::string::String::from_utf8_lossy, stub_lossy)]
+    fn complete_template_accepted() {
         use t_full::*;
-        let buf = T;
-        let k: usize = kani::any();
-        kani::assume(k <= N);
-        let mut inp = LineRd::new(&buf, &E);
-        inp.limit = k;
-        let r = DumpHeader::load(&mut inp);
+        let mut buf = T;
+        buf[0] = b'.';
+        let (r, done) = load_from(&buf, &E);
         match &r {
             Ok(h) => {
-                assert!(k == N, "(R) a header that ends before .nodes must be rejected");
                 check_invariant::<2, 2>(h);
                 check_t1_mode(h);
                 check_t1_support(h);
                 assert!(h.nnodes == 3 && h.nvars == 3 && h.rootids[0] == 2 && h.rootids[1] == -3);
+                assert!(h.lines == N, "number of header lines including .nodes");
+                assert!(done);
             }
-            Err(_) => assert!(k < N, "the complete header is accepted"),
+            Err(_) => assert!(false, "the complete header is accepted"),
         }
-        kani::cover!(r.is_ok(), "complete header");
-        kani::cover!(r.is_err() && k == 0, "empty file");
-        kani::cover!(r.is_err() && k == N - 1, "only .nodes missing");
         core::mem::forget(r);
     }
 
-    // ------------------------------------------------------------------ template T2: names
-    // T1 plus `.orderedvarnames c a b` (names by level) and `.rootnames f g`
+    // ------------------------------------------------------------------ template T4: names
+    // T3 plus `.orderedvarnames d c a b` (names by level) and `.rootnames f g`
 
-    template!(t_names, 2, b".ver DDDMP-2.0\n.mode A\n.varinfo 4\n.nnodes 3\n.nvars 3\n.nsuppvars 2\n.orderedvarnames c a b\n.ids 0 2\n.permids # #\n.nroots 2\n.rootids 2 -3\n.rootnames f g\n.nodes\n");
+    template!(t_names, 1, b".ver DDDMP-2.0\n.mode A\n.varinfo 4\n.nnodes 3\n.nvars 4\n.nsuppvars 3\n.orderedvarnames d c a b\n.ids 0 1 3\n.permids 2 # 0\n.nroots 2\n.rootids 2 -3\n.rootnames f g\n.nodes\n");
 
-    /// `.permids P Q` (digits) with `.orderedvarnames c a b` as the only name table.  Documented
-    /// (var_names()): nvars names in the ORIGINAL variable order, all non-empty; the support
-    /// variable ids[i] is the one on level permids[i], so it carries the name at that position.
-    /// valid iff P != Q, both < 3.
+    /// `.permids 2 P 0` (P digit) with `.orderedvarnames d c a b` as the only name table.
+    /// Documented (var_names()): nvars names in the ORIGINAL variable order, all non-empty; the
+    /// support variable ids[i] is the one on level permids[i], so it carries the name at that
+    /// position of `.orderedvarnames`.  valid iff P in {1, 3}.
+    /// (`String::from_utf8_lossy` is NOT stubbed here.)
     #[kani::proof]
-    #[kani::unwind(26)]
+    #[kani::unwind(27)]
     #[kani::stub(alloc::fmt::format, stub_format)]
     #[kani::stub(core::arch::x86_64::__cpuid_count, stub_cpuid)]
-    fn orderedvarnames_permids_digits() {
+    fn orderedvarnames_permid_digit() {
         use t_names::*;
         let mut buf = T;
-        let (p, q): (u8, u8) = (kani::any(), kani::any());
-        kani::assume(digit(p) && digit(q));
+        let p: u8 = kani::any();
+        kani::assume(digit(p));
         buf[H0] = p;
-        buf[H1] = q;
         let (r, done) = load_from(&buf, &E);
-        let valid = p != q && p < b'3' && q < b'3';
+        let valid = p == b'1' || p == b'3';
         match &r {
             Ok(h) => {
                 assert!(valid, "(R) duplicate / out-of-range .permids must be rejected");
-                check_invariant::<2, 2>(h);
-                assert!(h.nvars == 3 && h.ids[0] == 0 && h.ids[1] == 2);
-                let ord = [b'c', b'a', b'b'];
-                let (pi, qi) = ((p - b'0') as usize, (q - b'0') as usize);
-                assert!(h.varnames.len() == 3, "var_names(): nvars entries");
+                check_invariant::<3, 2>(h);
+                assert!(h.nvars == 4 && h.ids[0] == 0 && h.ids[1] == 1 && h.ids[2] == 3);
+                assert!(h.varnames.len() == 4, "var_names(): nvars entries");
                 let n0 = h.varnames[0].as_bytes();
                 let n1 = h.varnames[1].as_bytes();
                 let n2 = h.varnames[2].as_bytes();
-                assert!(n0.len() == 1 && n1.len() == 1 && n2.len() == 1, "all names non-empty (single letters here)");
-                assert!(n0[0] == ord[pi], "variable ids[0]=0 is on level P");
-                assert!(n2[0] == ord[qi], "variable ids[1]=2 is on level Q");
-                assert!(n1[0] == ord[3 - pi - qi], "the unused variable gets the remaining name");
+                let n3 = h.varnames[3].as_bytes();
+                assert!(n0.len() == 1 && n1.len() == 1 && n2.len() == 1 && n3.len() == 1, "all names non-empty (single letters here)");
+                // levels: 0 -> d, 1 -> c, 2 -> a, 3 -> b; variable 3 on level 0, variable 0 on level 2,
+                // variable 1 on level P, variable 2 unused
+                assert!(n3[0] == b'd', "variable 3 is on level 0");
+                assert!(n0[0] == b'a', "variable 0 is on level 2");
+                if p == b'1' {
+                    assert!(n1[0] == b'c' && n2[0] == b'b', "variable 1 on level 1; the unused variable gets the remaining name");
+                } else {
+                    assert!(n1[0] == b'b' && n2[0] == b'c', "variable 1 on level 3; the unused variable gets the remaining name");
+                }
                 assert!(h.rootnames.len() == 2, "root_names(): one per root");
-                assert!(h.rootnames[0].as_bytes() == b"f" && h.rootnames[1].as_bytes() == b"g", "metadata: .rootnames");
+                let (f, g) = (h.rootnames[0].as_bytes(), h.rootnames[1].as_bytes());
+                assert!(f.len() == 1 && f[0] == b'f' && g.len() == 1 && g[0] == b'g', "metadata: .rootnames");
                 assert!(done);
             }
             Err(_) => assert!(!valid, "a header satisfying all documented requirements is accepted"),
         }
-        kani::cover!(r.is_ok() && p == b'1' && q == b'0', "valid, descending levels");
-        kani::cover!(r.is_ok() && p == b'0' && q == b'2', "valid, ascending levels");
-        kani::cover!(r.is_err() && p == b'3', "level == nvars (index past the name table)");
-        kani::cover!(r.is_err() && p == q, "duplicate level");
+        kani::cover!(r.is_ok() && p == b'1', "valid, dense levels");
+        kani::cover!(r.is_ok() && p == b'3', "valid, gap");
+        kani::cover!(r.is_err() && p == b'4', "level == nvars (index past the name table)");
+        kani::cover!(r.is_err() && p == b'0', "duplicate level");
         core::mem::forget(r);
     }
 
